@@ -8,7 +8,9 @@
 //!   tc  = {"errors": [{"msg","span"}], "interface": [[name, ty]...], "typemap": [[name, ty]...],
 //!          "typemap_text": "...", "approx": ["..."]}
 //!   run = {"outcome": "ok" | {"err": ...},
-//!          "exported": [{"name","ty","checkable","ok","value"}],       isinstance(value, <rendered interface type>)
+//!          "exported": [{"name","ty","checkable","ok","value","coarse"?}],   isinstance(value, <rendered interface type>);
+//!                      a function type (`def(..) -> ..`, `function`, unions of them) is not a type expression: such an
+//!                      exported binding is tested against `typing.Callable` instead ("coarse": true)
 //!          "probes":   [{"name","tys","n","bad": [value...]}]}         isinstance(value of a local binding, <rendered TypeMap type>)
 //!
 //! The program may call `probe("name", value)` (a native function of this harness): the value is tested, at the
@@ -227,11 +229,60 @@ fn typecheck_guarded(src: &str) -> Result<Result<J, String>, &'static str> {
     }
 }
 
+/// A rendered type with function alternatives (`def(..) -> ..`, `function`) is not a type expression.  When it is
+/// unambiguous - no plain alternative FOLLOWS a function alternative (`def() -> R | S` could be the return type
+/// `R | S` or the union of a function and `S`) - return the type expression in which every function alternative is
+/// replaced by `typing.Callable`: the value of such a binding must at least be callable (or one of the other alternatives).
+fn coarse_type_expr(t: &str) -> Option<String> {
+    if !t.is_ascii() {
+        return None;
+    }
+    // split at ` | ` outside brackets
+    let mut depth = 0i32;
+    let mut parts: Vec<String> = Vec::new();
+    let mut cur = String::new();
+    let b = t.as_bytes();
+    let mut i = 0;
+    while i < b.len() {
+        let c = b[i] as char;
+        match c {
+            '(' | '[' | '{' => depth += 1,
+            ')' | ']' | '}' => depth -= 1,
+            _ => {}
+        }
+        if depth == 0 && t[i..].starts_with(" | ") {
+            parts.push(std::mem::take(&mut cur));
+            i += 3;
+            continue;
+        }
+        cur.push(c);
+        i += 1;
+    }
+    parts.push(cur);
+    let is_fn = |p: &str| p.trim().starts_with("def(") || p.trim() == "function";
+    let mut out: Vec<String> = Vec::new();
+    let mut seen_fn = false;
+    for p in &parts {
+        if is_fn(p) {
+            if !seen_fn {
+                out.push("typing.Callable".to_owned());
+            }
+            seen_fn = true;
+        } else if seen_fn {
+            return None;
+        } else {
+            out.push(p.trim().to_owned());
+        }
+    }
+    if seen_fn { Some(out.join(" | ")) } else { None }
+}
+
 /// Compile the rendered types into a frozen module `T0..Tn`; a text that is not a type expression gets no slot.
 fn build_type_module(g: &Globals, texts: &[String]) -> (Option<FrozenModule>, Vec<bool>) {
     // each type is evaluated separately first so that one unrenderable type does not spoil the others
     let mut good = Vec::new();
     for t in texts {
+        let t = &coarse_text(t);
         let ok = Module::with_temp_heap(|m| {
             match AstModule::parse("t.star", format!("T = eval_type({})\n", t), &dialect()) {
                 Err(_) => false,
@@ -246,7 +297,7 @@ fn build_type_module(g: &Globals, texts: &[String]) -> (Option<FrozenModule>, Ve
     let mut src = String::new();
     for (i, t) in texts.iter().enumerate() {
         if good[i] {
-            src.push_str(&format!("T{} = eval_type({})\n", i, t));
+            src.push_str(&format!("T{} = eval_type({})\n", i, coarse_text(t)));
         }
     }
     let fm = Module::with_temp_heap(|m| {
@@ -258,6 +309,17 @@ fn build_type_module(g: &Globals, texts: &[String]) -> (Option<FrozenModule>, Ve
         m.freeze().ok()
     });
     (fm, good)
+}
+
+/// Marker prefix of an interface type that is tested coarsely (never a rendered type: starts with a space).
+const COARSE: &str = " coarse:";
+
+/// The type expression actually compiled for a text.
+fn coarse_text(t: &str) -> String {
+    match t.strip_prefix(COARSE) {
+        Some(e) => e.to_owned(),
+        None => t.to_owned(),
+    }
 }
 
 fn run_module(src: &str, g: &Globals, tc: &J) -> J {
@@ -274,7 +336,11 @@ fn run_module(src: &str, g: &Globals, tc: &J) -> J {
     let mut iface: Vec<(String, String, usize)> = Vec::new();
     for e in tc["interface"].as_array().unwrap() {
         let (n, t) = (e[0].as_str().unwrap(), e[1].as_str().unwrap());
-        let i = idx(t, &mut texts);
+        // exported bindings only: a function type is tested as `typing.Callable`
+        let i = match coarse_type_expr(t) {
+            Some(e) => idx(&format!("{}{}", COARSE, e), &mut texts),
+            None => idx(t, &mut texts),
+        };
         iface.push((n.to_owned(), t.to_owned(), i));
     }
     let mut tmap: Vec<(String, String, usize)> = Vec::new();
@@ -320,7 +386,8 @@ fn run_module(src: &str, g: &Globals, tc: &J) -> J {
             };
             let mut val = enc(v);
             val.truncate(300);
-            exported.push(json!({"name": n, "ty": t, "checkable": r.is_some(), "ok": r.unwrap_or(true), "value": val}));
+            exported.push(json!({"name": n, "ty": t, "checkable": r.is_some(), "ok": r.unwrap_or(true), "value": val,
+                                 "coarse": texts[*i].starts_with(COARSE)}));
         }
         json!({"outcome": outcome, "exported": exported})
     });
